@@ -317,6 +317,16 @@ def run_ie(case):
             real = make_controller(case["ctrl"])
             rec = _recorder(real)
             ie = m.InversionEnabler(op, rec, approximation=ap)
+            if case.get("reuse"):
+                # InversionEnabler keeps one controller object for all of its applications
+                try:
+                    ie.apply(m.makeField(dom, x * 0 + 8.0 * (np.arange(n) + 1)), case["mode"])
+                except Exception:
+                    pass
+                rec.rec.clear()
+                op.calls.clear()
+                if ap is not None:
+                    ap.calls.clear()
             y = ie.apply(m.makeField(dom, x), case["mode"])
             cap = int(ie.capability)
     except Exception as e:
